@@ -76,7 +76,7 @@ fn run_one(
         let st = c.project().await;
         let ev = std::mem::take(&mut c.events);
         w.write(&json!({"run":run,"id":id,"step":0,"a":{"a":"Init"},"applied":true,"st":st,"ev":ev,"msgs":[],
-            "cfg": {"n": cfg.n, "cap": cfg.cap}}));
+            "cfg": {"n": cfg.n, "cap": cfg.cap}, "cfgIn": sched.get("cfg").cloned().unwrap_or(json!({}))}));
         let mut i = 0u64;
         match random {
             None => {
@@ -111,6 +111,13 @@ fn run_one(
                     let wt = |s: &Value| -> u32 {
                         let a = s["a"].as_str().unwrap_or("");
                         match (profile.as_str(), a) {
+                            ("member", "Crash") => 1,
+                            ("member", "Stop") => 1,
+                            ("member", "Join") => 12,
+                            ("member", "Timeout") => 3,
+                            ("member", "Client") => 3,
+                            ("member", "DropMsg") => 2,
+                            ("member", "DropVQ") => 3,
                             (_, "Crash") => 2,
                             (_, "Stop") => 1,
                             (_, "Restart") => 30,
@@ -125,6 +132,7 @@ fn run_one(
                             (_, "Heartbeat") => 12,
                             (_, "Client") => 6,
                             (_, "DeliverSnap") => 20,
+                            (_, "Join") => 3,
                             _ => 1,
                         }
                     };
